@@ -213,13 +213,16 @@ impl Iommu {
         proximity_domain: Option<u32>,
         int_wires: Option<Vec<InterruptWire>>,
     ) -> Self {
-        Self {
+        let iommu = Self {
             id,
             base_addr,
             pci_device,
             proximity_domain,
             int_wires,
-        }
+        };
+        // the device length is a 16-bit field
+        assert!(iommu.len() <= u16::MAX as usize);
+        iommu
     }
 
     fn u8sum(&self) -> u8 {
@@ -365,13 +368,16 @@ impl PcieRootComplex {
         pri: bool,
         id_mappings: Option<Vec<IdMapping>>,
     ) -> Self {
-        Self {
+        let rc = Self {
             id,
             pci_segment,
             ats,
             pri,
             id_mappings,
-        }
+        };
+        // the device length is a 16-bit field
+        assert!(rc.len() <= u16::MAX as usize);
+        rc
     }
 
     fn u8sum(&self) -> u8 {
@@ -436,11 +442,14 @@ impl Platform {
     const NAME_OFFSET: usize = 12;
 
     pub fn new(id: u16, name: String, id_mappings: Option<Vec<IdMapping>>) -> Self {
-        Self {
+        let platform = Self {
             id,
             name,
             id_mappings,
-        }
+        };
+        // the device length and the id mapping offset are 16-bit fields
+        assert!(platform.len() <= u16::MAX as usize);
+        platform
     }
 
     fn u8sum(&self) -> u8 {
